@@ -27,7 +27,10 @@ WAYS = [('copy.copy', copy.copy), ('copy.deepcopy', copy.deepcopy),
 
 def make(obj):
     out, failed = [], []
-    for label, fn in WAYS:
+    ways = list(WAYS)
+    if callable(getattr(obj, 'copy', None)):
+        ways.append(('its own copy() method', lambda o: o.copy()))
+    for label, fn in ways:
         try:
             out.append((label, fn(obj)))
         except BaseException as exc:  # noqa: BLE001
